@@ -32,21 +32,23 @@ class LogTransport(fw.Transport):
         else:
             self.log.append(("write_after_abort", self.who, len(data)))
 
-    def loseConnection(self):
-        super().loseConnection()
-        self.log.append(("drop", self.who, False))
+    # only the names of the framework in use exist (the adapters look the methods up by name)
+    if fw.NAME == "tx":
+        def loseConnection(self):
+            super().loseConnection()
+            self.log.append(("drop", self.who, False))
 
-    def abortConnection(self):
-        super().abortConnection()
-        self.log.append(("drop", self.who, True))
+        def abortConnection(self):
+            super().abortConnection()
+            self.log.append(("drop", self.who, True))
+    else:
+        def close(self):
+            super().close()
+            self.log.append(("drop", self.who, False))
 
-    def close(self):
-        super().close()
-        self.log.append(("drop", self.who, False))
-
-    def abort(self):
-        super().abort()
-        self.log.append(("drop", self.who, True))
+        def abort(self):
+            super().abort()
+            self.log.append(("drop", self.who, True))
 
     def unread(self):
         return bytes(self.written[self.read_pos:])
